@@ -883,16 +883,16 @@ func gen(r *Rng, tier string, emit func(Sx)) {
 	for i := 0; i < 900*mul; i++ {
 		emit(genMem(r.Fork()))
 	}
-	for i := 0; i < 160*mul; i++ {
+	for i := 0; i < 110*mul; i++ {
 		emit(genEVM(r.Fork()))
 	}
 	for i := 0; i < 300*mul; i++ {
 		emit(genPrecompile(r.Fork()))
 	}
-	for i := 0; i < 120*mul; i++ {
+	for i := 0; i < 70*mul; i++ {
 		emit(genProbes(r.Fork()))
 	}
-	for i := 0; i < 150*mul; i++ {
+	for i := 0; i < 120*mul; i++ {
 		emit(genHistory(r.Fork()))
 	}
 }
@@ -935,7 +935,43 @@ func codeForward(t int, w1, w2 []byte) []byte {
 	return a.b
 }
 
+// the code behind an address changes between two calls that reach it the same way (directly,
+// through an EIP-7702 delegation, through a forwarder to the delegation) while the caches stay warm
+func genHistoryRecode(r *Rng) Sx {
+	shapes := [][]int{jumpShape(r), jumpShape(r)}
+	l0, _ := jumpLayout(shapes[0])
+	l1, _ := jumpLayout(shapes[1])
+	codes := [][]byte{codeOf(progJumps(r, shapes[0], l1)), codeOf(progJumps(r, shapes[1], l0))}
+	if r.Chance(1, 4) { // the demo shape: same length, a JUMPDEST where the other code has PUSH data
+		codes = [][]byte{{0x60, 0x08, 0x56, 0x63, 0x5b, 0x00, 0x00, 0x00, 0x5b, 0x00, 0x00, 0x00, 0x00, 0x00, 0x00},
+			{0x60, 0x04, 0x56, 0x00, 0x5b, 0x60, 0x2a, 0x60, 0x00, 0x52, 0x60, 0x20, 0x60, 0x00, 0xf3}}
+	}
+	t := r.Intn(3)
+	steps := SL{L(I(0), I(int64(t)), B(codes[0])), L(I(1), I(3), I(int64(t))),
+		L(I(0), I(5), B(codeForward(3, r.Bytes(32), r.Bytes(32))))}
+	via := func() Sx { return L(I(2), I(int64([]int{t, 3, 3, 5}[r.Intn(4)])), B(r.Bytes(r.Intn(8))), U(200000)) }
+	cur := 0
+	for i, n := 0, r.Range(3, 8); i < n; i++ {
+		steps = append(steps, via())
+		if r.Chance(2, 3) {
+			cur = 1 - cur
+			steps = append(steps, L(I(0), I(int64(t)), B(codes[cur])))
+		}
+		if r.Chance(1, 6) { // retarget the delegation to another account holding the other code
+			o := (t + 1) % 3
+			steps = append(steps, L(I(0), I(int64(o)), B(codes[1-cur])), L(I(1), I(3), I(int64(o))))
+			t = o
+			cur = 1 - cur
+		}
+	}
+	steps = append(steps, via(), via())
+	return L(I(4), I(int64(r.Range(1, 2))), steps)
+}
+
 func genHistory(r *Rng) Sx {
+	if r.Chance(2, 5) {
+		return genHistoryRecode(r)
+	}
 	const nacc = 8
 	shapes := [][]int{jumpShape(r), jumpShape(r), jumpShape(r)}
 	var layouts [][]int
